@@ -303,11 +303,17 @@ int        inotify_init1(int)
   return fds[0];
 }
 int inotify_add_watch(int, const char *, uint32_t) { return 1; }
-// no system configuration files: the channel is configured through options only
+// system configuration: a virtual /etc/resolv.conf only (the channel's own settings come from options)
 typedef FILE *(*fopen_t)(const char *, const char *);
 FILE *fopen(const char *path, const char *mode)
 {
   static fopen_t real = (fopen_t)dlsym(RTLD_NEXT, "fopen");
+  if (path && strcmp(path, "/etc/resolv.conf") == 0) {
+    // a small system configuration, so that a reload (ares_reinit, configuration-change event) really parses something
+    // on the reload thread while other threads use the channel
+    static const char conf[] = "nameserver 10.0.0.1\nnameserver 10.0.0.2\nsearch sys.example\noptions ndots:2 timeout:1 attempts:2\n";
+    return fmemopen((void *)conf, sizeof conf - 1, "r");
+  }
   if (path && strncmp(path, "/etc/", 5) == 0) {
     errno = ENOENT;
     return nullptr;
@@ -648,6 +654,18 @@ static std::vector<Prog> programs()
                  Client *w = spawn([ch] { wait_all(ch, "P8 waiter"); });
                  join(w);
                  g_chain_ch = nullptr;
+               } });
+  v.push_back({ "P9-set-servers-vs-reinit", "c11", 0, 1, 1, 2, [](ares_channel_t *ch) {
+                 // the configuration-reload thread reads the system configuration while the application sets its servers
+                 Client *a = spawn([ch] { ares_set_servers_ports_csv(ch, "10.0.0.2:53"); });
+                 Client *b = spawn([ch] { ares_reinit(ch); });
+                 join(a);
+                 join(b);
+                 // whatever the order, servers the application set are never replaced by the system's
+                 char *csv = ares_get_servers_csv(ch);
+                 if (!csv || strcmp(csv, "10.0.0.2:53") != 0)
+                   viol("C11:reinit:application-servers-overridden", fmt("after ares_set_servers_ports_csv(\"10.0.0.2:53\") || ares_reinit the channel's servers are \"%s\"", csv ? csv : "(null)"));
+                 ares_free_string(csv);
                } });
   v.push_back({ "P7-destroy-while-busy", "c11", 0, 1, 0, 1, [](ares_channel_t *ch) {
                  q_query(ch, "a.example.com");
